@@ -26,6 +26,7 @@ func init() {
 		"vpAllocBytes":   vpAllocBytes,
 		"vpStr":          vpStr,
 		"vpStrN":         vpStrN,
+		"vpDump":         vpDump,
 		"vpConstStr":     vpConstStr,
 		"vpBytesN":       vpBytesN,
 		"vpAssume":       vpAssume,
@@ -328,4 +329,56 @@ func (e *Engine) countAlloc(st *State, bytes *Term) {
 		cur = e.c64(0)
 	}
 	st.ghost["vp.alloc"] = e.tm.Add(cur.(*Term), bytes)
+}
+
+func termStr(t *Term, depth int) string {
+	if t.op == OpConst {
+		return fmt.Sprintf("%d", t.val)
+	}
+	if t.op == OpVar {
+		return t.name
+	}
+	if depth == 0 {
+		return "..."
+	}
+	name := opNames[t.op]
+	switch t.op {
+	case OpExtract:
+		name = fmt.Sprintf("extract[%d:%d]", t.hi, t.lo)
+	case OpZExt:
+		name = fmt.Sprintf("zext%d", t.w)
+	case OpSExt:
+		name = fmt.Sprintf("sext%d", t.w)
+	case OpSelect:
+		name = "select:" + t.name
+	case OpUF:
+		name = t.name
+	}
+	s := "(" + name
+	for _, a := range t.args {
+		s += " " + termStr(a, depth-1)
+	}
+	return s + ")"
+}
+
+// vpDump(tag, bytes): development aid, prints the terms of a byte slice.
+func vpDump(e *Engine, st *State, fn *ssa.Function, a []Value, s ssa.Instruction) []Outcome {
+	tag := constStrArg(a[0])
+	val := a[1]
+	if iv, ok := val.(*IfaceV); ok {
+		val = iv.val
+	}
+	switch v := val.(type) {
+	case *SliceV:
+		str := e.sliceAsStr(st, v)
+		fmt.Printf("DUMP %s len=%s\n", tag, termStr(str.len, 4))
+		if n, ok := str.len.ConstVal(); ok {
+			for i := uint64(0); i < n && i < 24; i++ {
+				fmt.Printf("   [%d] %s\n", i, termStr(e.arrRead(str.arr, e.tm.Add(str.off, e.c64(i))), 6))
+			}
+		}
+	case *Term:
+		fmt.Printf("DUMP %s %s\n", tag, termStr(v, 8))
+	}
+	return one(st, nil)
 }
